@@ -174,7 +174,7 @@ func c04Gen(t *rapid.T) c04Case {
 	for i := 0; i < n; i++ {
 		var o c04Op
 		o.Kind = rapid.SampledFrom([]string{"create", "create", "create", "create", "createfrom", "createfrom", "copy", "copy", "delete", "delete", "delete",
-			"pull", "pull", "restart", "blob", "list", "pardelete", "pardelete", "pulldel", "pulldel", "pulldel"}).Draw(t, "kind")
+			"pull", "pull", "restart", "blob", "blob", "list", "pardelete", "pardelete", "pulldel", "pulldel", "pulldel"}).Draw(t, "kind")
 		// names are drawn from a small sub-pool most of the time so that operations collide
 		if rapid.IntRange(0, 3).Draw(t, "wide") == 0 {
 			o.Name = rapid.IntRange(0, 10000).Draw(t, "name")
@@ -203,6 +203,7 @@ func c04Gen(t *rapid.T) c04Case {
 			}
 		case "blob":
 			o.GGUF = rapid.IntRange(0, 3).Draw(t, "gguf")
+			o.DCase = rapid.SampledFrom([]int{0, 0, 1, 2}).Draw(t, "blob_digest")
 		case "pull":
 			o.Stream = rapid.Bool().Draw(t, "stream")
 		case "pulldel":
@@ -498,9 +499,20 @@ func c04RunInner(c c04Case) (classes []string, nontrivial bool, err error) {
 		switch o.Kind {
 		case "blob":
 			g := c04GGUFs[o.GGUF%len(c04GGUFs)]
-			code, body := e.do("POST", "/api/blobs/"+frDigest(g), g)
-			if code != 200 && code != 201 {
-				opErr = fmt.Errorf("blob upload answered %d %s", code, body)
+			switch o.DCase {
+			case 1: // the right digest in upper-case hex: whatever the answer, content that is already stored stays
+				e.cls["blob_upload_uppercase_digest"] = true
+				e.do("POST", "/api/blobs/sha256:"+strings.ToUpper(strings.TrimPrefix(frDigest(g), "sha256:")), g)
+			case 2: // a well-formed digest of other bytes: the upload is refused, nothing else changes
+				e.cls["blob_upload_wrong_digest"] = true
+				if code, body := e.do("POST", "/api/blobs/"+frDigest(append([]byte("other "), g[:8]...)), g); code == 200 || code == 201 {
+					opErr = fmt.Errorf("blob upload under a digest that is not the content's answered %d %s", code, body)
+				}
+			default:
+				code, body := e.do("POST", "/api/blobs/"+frDigest(g), g)
+				if code != 200 && code != 201 {
+					opErr = fmt.Errorf("blob upload answered %d %s", code, body)
+				}
 			}
 		case "create", "createfrom":
 			addressed[c04Key(name)] = true
